@@ -9,6 +9,7 @@ import Heathcliff.Proofs.GenRns16
 import Heathcliff.Proofs.GenRns19
 import Heathcliff.Proofs.GenRns20
 import Heathcliff.Proofs.GenRns21
+import Heathcliff.Proofs.GenRns22
 
 /- Property theorems only (statements verbatim; proofs are the helper lemmas of Heathcliff/Proofs). -/
 namespace HC.C10
@@ -258,5 +259,15 @@ theorem gen_fast_floor_floor : type_of% @HC.gr_fast_floor_floor := @HC.gr_fast_f
     with the final carry) -/
 theorem gen_multiply_uint_u64_eq (a : List Nat) (w : Nat) (r : List Nat) : HC.GenR.multiply_uint_u64 a w r = multiplyUintU64 a w r.length :=
   HC.gr_multiply_uint_u64_eq a w r
+
+/-! ### translator tie, phase 4k: `RNSBase::compose` (generated into Gen/Rns2Fns.lean; Proofs/GenRns22.lean) -/
+
+/-- `RNSBase::compose` generated from the source (calls the generated `multiply_uint_u64`, `add_uint_mod_inplace`, `multiply_u64operand_mod`) = the hand
+    model's value-level `RNSBase.compose` on a well-formed base: the limbs left in `value` are the limbs of the model's value -/
+theorem gen_rnsbase_compose_eq : type_of% @HC.gr_rnsbase_compose_eq := @HC.gr_rnsbase_compose_eq
+/-- END TO END with `compose_spec`: for canonical residues the generated `compose` returns the limbs of THE integer below the product with these residues -/
+theorem gen_rnsbase_compose_crt : type_of% @HC.gr_rnsbase_compose_crt := @HC.gr_rnsbase_compose_crt
+/-- decompose ∘ compose = id on the GENERATED code -/
+theorem gen_decompose_compose : type_of% @HC.gr_decompose_compose_gen := @HC.gr_decompose_compose_gen
 
 end HC.C10
